@@ -28,6 +28,14 @@ CLAIMED = {
               "(never exposed, non-interference). The implementation is exercised in 3 parse modes and through Strict writers (direct and sorting) with mutated, protected-class and generic columns."),
         note="writer side relies on C06's check for arbitrary API records; record-level lifting of the field theorem is by correspondence",
         design="§6 C05"),
+    "C06": dict(
+        technique="Lean 4 proof (what Strict validation lets through renders to a line Strict parsing accepts; refusals are the format exception; sorting path through the codec) + differential correspondence of API-built records + write-then-read oracle",
+        text=("Theorems over the model of MafRecord.validate / MafColumnRecord.validate(scheme) / Writer.write / Writer.close for every record in the PyVal universe (any column class, index, value type): "
+              "C06.emitted_line_accepted (a direct Strict writer's emitted line is read back by Strict from_line with no error, for custom, plain and mixed schemes, including sub-class columns through the twin check), "
+              "validate_ok_shape, queue_validated, close_lines_accepted, sorted_writer_lines_accepted (a sorting Strict writer fed any mix of accepted and refused records, then closed), nullable_subclass_refused; refusals are PyErr.format. "
+              "Tied by col.api / writer.run on records with every deviation kind; the oracle feeds every emitted line to a Strict reader and requires refusals to be the library's format exception with no bytes written."),
+        note="sorting-path theorems are stated for schemes of custom column types (unrestricted/mixed schemes on the sorting path are covered by the correspondence only); FloatHost laws assumed and checked on the run's graph",
+        design="§6 C06"),
     "C08": dict(
         technique="Lean 4 proof (total preorder of the key comparison, operator agreement, totality on well-formed records) + differential correspondence",
         text=("Lean theorems on the model of SortOrderKey.compare / _CoordinateKey / _BarcodesAndCoordinateKey: keys built by one (order, contigs) from well-formed records always compare, "
